@@ -69,9 +69,74 @@ def build(idx, sym, spec):
     elif k == 'boxed':
         inner, ispec = build(idx, sym, spec['inner']); out['inner'] = ispec
         return Ref(Cell(inner, tag='heap')), out
+    elif k == 'replace':
+        inner, ispec = build(idx, sym, spec['inner']); out['inner'] = ispec
+        # the object itself is built by the crate's own constructor and replace calls (see prepare())
+        out['_pending'] = ('replace', inner)
+        reps = []
+        n = text_len(ispec)
+        for i, r in enumerate(spec['replacements']):
+            rr = dict(r)
+            for key in ('start', 'end'):
+                if r[key] == '?':
+                    v = z3.BitVec('r%d_%s_%d' % (sym.n, key, i), 32); sym.n += 1
+                    sym.st.pc.append(z3.ULE(v, n + 1))
+                    rr['_' + key] = v
+                else: rr['_' + key] = r[key]
+            sym.st.pc.append(z3.ULE(zz(rr['_start']), zz(rr['_end'])))
+            reps.append(rr)
+        out['replacements'] = reps
+        return None, out
     else:
         raise Inconclusive('tree kind ' + k)
     return v, out
+
+
+def text_len(spec):
+    if '_text' in spec: return spec['_text'].len
+    if 'children' in spec: return sum(text_len(c) for c in spec['children'])
+    if spec['kind'] == 'replace': return text_len(spec['inner']) + sum(len(r['content']) for r in spec['replacements'])
+    if 'inner' in spec: return text_len(spec['inner'])
+    return 0
+
+
+def prepare(m, J, st, spec, mf):
+    """objects that are built by running the crate's own API (ReplaceSource::new + replace_with_enforce ...): returns the
+    list of states (the calls may fork on symbolic positions) with extra['root'] set"""
+    idx = m.idx
+    if spec['kind'] != 'replace': return [st]
+    _, inner = spec['_pending']
+    ity = type_of(spec['inner'])
+    outs = api.call(m, st, 'ReplaceSource::<%s>::new' % ity, [inner])
+    states = []
+    for kind, s, v in outs:
+        if kind != 'ret': J.fail_path(m, s, 'ReplaceSource::new panics', mf); continue
+        s.extra['root'] = Ref(Cell(v)); states.append(s)
+    for r in spec['replacements']:
+        nxt = []
+        for s in states:
+            enf = Enum('ReplacementEnforce', r.get('enforce', 1), {})
+            nm = none() if r.get('name') is None else some(mkstr(r['name']))
+            args = [s.extra['root'], IntV(r['_start'], 'u32'), IntV(r['_end'], 'u32'), mkstr(r['content']), nm, enf]
+            for kind, s2, v in api.call(m, s, 'ReplaceSource::<%s>::replace_with_enforce' % ity, args):
+                if kind != 'ret': J.fail_path(m, s2, 'C17: replace_with_enforce panics: %r' % (v,), mf); continue
+                nxt.append(s2)
+            for h in r.get('then', []):      # observers called between mutations (C05 / C14 histories)
+                nxt2 = []
+                for s2 in nxt:
+                    name = {'source': '<ReplaceSource<%s> as Source>::source', 'size': '<ReplaceSource<%s> as Source>::size'}[h] % ity
+                    for kind, s3, v in api.call(m, s2, name, [s2.extra['root']]):
+                        if kind != 'ret': J.fail_path(m, s3, 'C17: observer %s panics: %r' % (h, v), mf); continue
+                        nxt2.append(s3)
+                nxt = nxt2
+        states = nxt
+    return states
+
+
+def type_name(spec):
+    if spec['kind'] == 'replace': return 'ReplaceSource<%s>' % type_of(spec['inner'])
+    if spec['kind'] == 'cached': return 'CachedSource<%s>' % type_of(spec['inner'])
+    return type_of(spec)
 
 
 def type_of(spec):
@@ -88,6 +153,14 @@ def concretize_spec(mdl, spec, m=None, st=None):
         else: out['text'] = bytes(mval(mdl, b) for b in spec['_text'].bytes()).decode('utf-8', 'replace')
     if 'children' in spec: out['children'] = [concretize_spec(mdl, c, m, st) for c in spec['children']]
     if 'inner' in spec: out['inner'] = concretize_spec(mdl, spec['inner'], m, st)
+    if spec['kind'] == 'replace':
+        reps = []
+        for r in spec['replacements']:
+            rr = {k: v for k, v in r.items() if not k.startswith('_')}
+            for key in ('start', 'end'):
+                rr[key] = det_int(m, st, mdl, r['_' + key]) if m is not None else mval(mdl, r['_' + key])
+            reps.append(rr)
+        out['replacements'] = reps
     return out
 
 
@@ -217,7 +290,7 @@ def finish(m, J, s, raw, spec, props, mf, depth=0):
                 obs['streams'][w] = {'events': events_of(m, s, mdl, evs, idx),
                                      'end': [det_int(m, s, mdl, ret.f[idx.fld('GeneratedInfo', 'generated_line')]), det_int(m, s, mdl, ret.f[idx.fld('GeneratedInfo', 'generated_column')])]}
     except Undetermined as u:
-        if depth > 12: raise Inconclusive('observation not determined by the path after 12 case splits')
+        if depth > 30: raise Inconclusive("observation not determined by the path after 30 case splits")
         for side in (u.expr, z3.Not(u.expr)):
             if m.feasible(s, side):
                 s2 = s.clone(); s2.pc.append(side); s2.model = None
@@ -244,10 +317,11 @@ def tree_job(jid, tree, props=None, what=('source', 'c1f0', 'c0f0', 'c1f1', 'c0f
     st = State()
     sym = Sym(st, ALPHA[alphabet])
     root, spec = build(idx, sym, tree)
-    st.extra['root'] = root if isinstance(root, Ref) else Ref(Cell(root))
-    tyname = type_of(tree)
+    if root is not None: st.extra['root'] = root if isinstance(root, Ref) else Ref(Cell(root))
+    tyname = type_name(tree)
     mf = lambda mdl: {'family': 'tree', 'tree': concretize_spec(mdl, spec), 'what': list(what)}
-    for s, raw in observe(m, J, st, root, tyname, spec, what, mf):
-        finish(m, J, s, raw, spec, props, mf)
+    for st1 in prepare(m, J, st, spec, mf):
+        for s, raw in observe(m, J, st1, root, tyname, spec, what, mf):
+            finish(m, J, s, raw, spec, props, mf)
     J.see('ran')
     return J.result(required_witnesses=('ran',) + tuple(witnesses))
